@@ -260,6 +260,12 @@ def build_cases(tier):
                                      dim_constr=[np.ones(3)] * (len(secs3) - 1))))
     C.append(Case("GeomMultiJoin[xy]", F("geometry.geometry_multi_join", "GeomMultiJoin", sections=secs3,
                                          dim_constr=[np.array([1, 1, 0])] * (len(secs3) - 1))))
+    # consecutive shared edges constraining different axes (a middle section sees two different masks); the component stacks
+    # the edges into one array, so every edge constrains the same number of coordinates
+    C.append(Case("GeomMultiJoin[x|z]", F("geometry.geometry_multi_join", "GeomMultiJoin", sections=secs3,
+                                          dim_constr=[np.array([1, 0, 0]), np.array([0, 0, 1])][: len(secs3) - 1])))
+    C.append(Case("GeomMultiJoin[xy|yz]", F("geometry.geometry_multi_join", "GeomMultiJoin", sections=secs3,
+                                           dim_constr=[np.array([1, 1, 0]), np.array([0, 1, 1])][: len(secs3) - 1])))
     C.append(Case("ReynoldsComp", F("common.reynolds_comp", "ReynoldsComp")))
     C.append(Case("MultiCD", F("integration.multipoint_comps", "MultiCD", n_points=3)))
     return C
